@@ -7,12 +7,12 @@ THEOREMS = ["MySensors.C05.value_request_reply", "MySensors.C05.unknown_gets_pre
             "MySensors.C05.set_without_reboot_silent", "MySensors.C05.config_reply_valid",
             "MySensors.C05.time_reply_valid", "MySensors.C05.value_reply_valid",
             "MySensors.C05.emitted_line_canonical", "MySensors.C05.logic_req", "MySensors.C05.logic_set",
-            "MySensors.C05.logic_internal"]
+            "MySensors.C05.logic_internal", "MySensors.C05.emitted_valid_step", "MySensors.C05.emitInv_step",
+            "MySensors.C05.emitted_valid_run", "MySensors.C05.emitInv_fresh"]
 ASSUMPTIONS = [
-    "theorems give the reply table per message kind and the validity of each prescribed reply; that EVERY emitted "
-    "line (incl. flushed queue entries, reboot replies, stream responses, presentation requests) is valid and "
-    "canonical for the configured version is decided by the oracle on the real code (independent re-decode and "
-    "re-validation of every emitted string), i.e. the global emitted-valid statement is not a theorem yet",
+    "emitted_valid_run assumes the invariant EmitInv (stored and desired values satisfy their rule and are "
+    "carryable, queued lines are valid) which is proved preserved from a fresh gateway; the oracle additionally "
+    "re-decodes and re-validates every string the real gateway emits",
     "controller calls pass node/child ids inside the protocol range and values the wire format can carry "
     "(no ';', no line break, no trailing blank)",
     "the clock fits CPython's integer-to-string limit",
